@@ -26,9 +26,9 @@ MANIFEST = {
     'technique': 'invariant over histories of a heap model + differential traces',
 }
 PROPERTY_FILES = ['Properties/C01.v']
-REFUTED_FILES = []
-MODEL_FILES = ['SF/Heap.v']
-IMPORTS = 'Require Import SF.Prelude SF.Heap.\nLocal Open Scope nat_scope.'
+REFUTED_FILES = ['Refuted/C01.v']
+MODEL_FILES = ['SF/Heap.v', 'SF/HeapAudit.v', 'Gen/Gen_c01.v']
+IMPORTS = 'Require Import SF.Prelude SF.Heap Gen.Gen_c01.\nLocal Open Scope nat_scope.'
 RULE = ('heap strata: a history is a list of steps of the model alphabet, each executed on the real library by a public call; '
         'non-trivial = the history builds at least one container from a caller-held array and later the caller writes, or exposes, or '
         'round-trips; distinct = distinct step list')
@@ -300,20 +300,19 @@ class Sim:
         self._derived(c, kind, new, [], f'c{c} * 2')
         return True
 
-    PICKLE_FLAGS = {   # slot -> re-frozen by __setstate__ (the table regenerated from the source is checked against this in generate())
-        'series': [True, True, False], 'index': [True, False], 'frame': [True, True, False, True, False]}
-
     def d_pickle(self, c):
+        """pickle round trip; which slots come back re-frozen is read from the generated table (Gen_c01, by name)."""
         kind, obj = self.conts[c]
         new = pickle.loads(pickle.dumps(obj))
         if kind == 'tb':
-            flags = [True] * len(obj._blocks)
+            flags = f'(repeat pickle_flag_block {len(obj._blocks)})'
         else:
-            flags = self.PICKLE_FLAGS[kind]
+            flags = {'series': 'pickle_flags_series', 'index': 'pickle_flags_index', 'frame': 'pickle_flags_frame1'}[kind]
+            if kind == 'frame':
+                assert len(obj._blocks._blocks) == 1
             self.flags.add('pickle_index')
         self.conts.append((kind, new))
-        self.emit(f'SDerive {c} [' + '; '.join(f'DPickle {j} {lit.b(f)}' for j, f in enumerate(flags)) + ']',
-                  f'c{len(self.conts) - 1} = pickle.loads(pickle.dumps(c{c}))')
+        self.emit(f'SDerive {c} (pickle_dsrcs_from 0 {flags})', f'c{len(self.conts) - 1} = pickle.loads(pickle.dumps(c{c}))')
 
     def d_deepcopy(self, c):
         kind, obj = self.conts[c]
@@ -444,13 +443,14 @@ def random_history(rng, sim, length, allow):
             sim.expose(c, rng.randrange(len(sim.slots(kind, obj))))
 
 
-def history_case(sim, stratum, guarded, spec=True):
+def history_case(sim, stratum, guarded, spec=True, **extra_tags):
     h, t, sh = sim.hist_lit(), sim.trace_lit(), sim.shares_lit()
     g = 'guarded w0 H' if guarded else 'negb (guarded w0 H)'
     m = f'(let H := {h} in trace_eqb (trace M_step w0 H) {t} && oshares_eqb (shares_obs (M_run w0 H)) {sh} && {g})%nat'
     s = f'(trace_eqb (trace S_step w0 {h}) {t})%nat' if spec else None
     nontrivial = any(st.startswith('SConstruct [FromCaller') for st in sim.steps) and any(st.startswith(('SWrite', 'SExpose', 'SDerive')) for st in sim.steps)
     tags = {'stratum': stratum}
+    tags.update(extra_tags)
     for f in ('readonly_alias', 'own_alias', 'pickle_index'):
         tags[f] = f in sim.flags
     return Case(stratum, {'replay': ['import numpy as np, static_frame as sf, pickle, copy; from static_frame.core.type_blocks import TypeBlocks'] + sim.desc,
@@ -459,8 +459,16 @@ def history_case(sim, stratum, guarded, spec=True):
                 tags=tags, nontrivial=nontrivial, key=h)
 
 
+def _scripted(script):
+    sim = Sim()
+    for op, *args in script:
+        getattr(sim, op)(*args)
+    return sim
+
+
 def heap_cases(ctx):
-    n = ctx.n(250, 2500)
+    # 1. random guarded histories
+    n = ctx.n(300, 3000)
     for i in range(n):
         sim = Sim()
         random_history(ctx.rng, sim, ctx.rng.choice([3, 4, 5, 6, 7]), allow=set())
@@ -468,8 +476,98 @@ def heap_cases(ctx):
         for st in sim.steps:
             ctx.count('step:' + st.split()[0])
         yield history_case(sim, 'heap:guarded-random', True)
-
-
+    # 2. exhaustive: every constructor route x every state of the argument (writeable / frozen owner / frozen view of frozen owner)
+    #    x every follow-up (caller write through each alias, expose + write, view of the exposure, round trips)
+    routes = [('c_series', ()), ('c_index', ()), ('c_tb1', ()), ('c_frame', (False,)), ('c_frame', (True,))]
+    preps = {
+        'writeable': [],
+        'frozen-owner': [('freeze', 0)],
+        'frozen-view-of-frozen-owner': [('view', 0, slice(None)), ('freeze', 0), ('freeze', 1)],
+        'writeable-view-argument': [('view', 0, slice(1, None))],
+    }
+    follow = [
+        [('write', 0, 0, -7)], [('expose', 0, 0), ('write', -1, 0, -7)], [('expose', 0, 0), ('view', -1, slice(None, None, -1)), ('write', -1, 0, -7)],
+        [('d_pickle_tb', 0), ('expose', 1, 0), ('write', -1, 0, -7)], [('d_deepcopy', 0), ('expose', 1, 0), ('write', -1, 0, -7)],
+        [('d_select', 0, slice(1, None)), ('write', 0, 1, -7), ('expose', 1, 0)], [('d_select', 0, [1, 0]), ('write', 0, 1, -7)],
+        [('d_rename', 0), ('write', 0, 0, -5), ('expose', 1, 0), ('write', -1, 0, -6)],
+    ]
+    for (route, rargs), (pname, prep), fol in itertools.product(routes, preps.items(), follow):
+        sim = Sim()
+        sim.new([11, 22, 33])
+        for op, *args in prep:
+            getattr(sim, op)(*args)
+        arg = len(sim.callers) - 1 if pname in ('frozen-view-of-frozen-owner', 'writeable-view-argument') else 0
+        if route == 'c_frame' and rargs[0] and sim._has_other_writeable_alias(arg):
+            continue        # outside the own_data hypothesis: stratum heap:own-alias below
+        if route == 'c_tb1':
+            sim.c_tb([arg])
+        else:
+            getattr(sim, route)(arg, *rargs)
+        for op, *args in fol:
+            if op == 'd_pickle_tb':
+                if sim.conts[0][0] != 'tb':
+                    op = 'd_deepcopy'
+                else:
+                    op = 'd_pickle'
+            args = [len(sim.callers) - 1 if (a == -1 and i == 0 and op in ('write', 'view')) else a for i, a in enumerate(args)]
+            if op == 'write' and not sim.callers[args[0]].shape[0] > args[1]:
+                continue
+            getattr(sim, op)(*args)
+        ctx.count(f'route:{route}{rargs}:{pname}')
+        assert not sim.flags, sim.flags
+        yield history_case(sim, 'heap:guarded-exhaustive-routes', True)
+    # 3. FINDING class by construction: a read-only argument one alias of which is still writeable
+    for route, rargs in routes[:4]:
+        for variant in ('view-frozen', 'owner-frozen-view-writeable'):
+            sim = Sim()
+            sim.new([11, 22, 33])
+            sim.view(0, slice(None))
+            sim.freeze(1 if variant == 'view-frozen' else 0)
+            arg = 1 if variant == 'view-frozen' else 0
+            if route == 'c_tb1':
+                sim.c_tb([arg])
+            else:
+                getattr(sim, route)(arg, *rargs)
+            sim.write(1 - arg, 0, -7)
+            sim.expose(0, 0)
+            assert sim.flags == {'readonly_alias'}
+            yield history_case(sim, 'heap:readonly-alias', False, check='readonly-alias')
+    for i in range(ctx.n(30, 300)):
+        sim = Sim()
+        random_history(ctx.rng, sim, ctx.rng.choice([4, 5, 6, 7]), allow={'readonly_alias'})
+        if sim.flags == {'readonly_alias'}:
+            yield history_case(sim, 'heap:readonly-alias', False, check='readonly-alias')
+    # 4. outside the quantifier (explicit ownership transfer): own_data=True while another alias is writeable; M only
+    for variant in ('view-before', 'base-of-argument'):
+        sim = Sim()
+        sim.new([11, 22, 33])
+        sim.view(0, slice(None))
+        arg = 0 if variant == 'view-before' else 1
+        sim.c_frame(arg, True)
+        sim.write(1 - arg, 0, -7)
+        sim.expose(0, 0)
+        assert sim.flags == {'own_alias'}
+        yield history_case(sim, 'heap:own-alias', False, spec=False)
+    for i in range(ctx.n(30, 300)):
+        sim = Sim()
+        random_history(ctx.rng, sim, ctx.rng.choice([4, 5, 6, 7]), allow={'own_alias'})
+        if sim.flags == {'own_alias'}:
+            yield history_case(sim, 'heap:own-alias', False, spec=False)
+    # 5. FINDING class by construction: pickle round trip of a container that has an Index (its _positions array comes back writeable)
+    for route, rargs in (('c_series', ()), ('c_index', ()), ('c_frame', (False,))):
+        sim = Sim()
+        sim.new([11, 22, 33])
+        getattr(sim, route)(0, *rargs)
+        sim.d_pickle(0)
+        j = {'c_series': 2, 'c_index': 1, 'c_frame': 2}[route]
+        sim.expose(1, j)
+        sim.write(len(sim.callers) - 1, 0, -7)
+        yield history_case(sim, 'heap:pickle-index', False, check='pickle-readonly', slot='_positions')
+    for i in range(ctx.n(30, 300)):
+        sim = Sim()
+        random_history(ctx.rng, sim, ctx.rng.choice([4, 5, 6, 7]), allow={'pickle_index'})
+        if sim.flags == {'pickle_index'}:
+            yield history_case(sim, 'heap:pickle-index', False, check='pickle-readonly', slot='_positions')
 
 
 # =============================================================================== interface x zoo enumeration (Python-side observation)
@@ -525,9 +623,10 @@ def _slots_of(obj):
     return names
 
 
-def walk_arrays(obj, path='r', out=None, seen=None, depth=0, budget=None):
-    '''Every ndarray reachable from a result: slots of static-frame objects, tuples / lists / dicts / sets, generators and iterators
-    (consumed, bounded), object arrays holding containers or arrays, masked arrays.'''
+def walk_arrays(obj, path='r', out=None, seen=None, depth=0, budget=None, inside=False):
+    """Every ndarray reachable from a result -> [(path, array, inside_container)]: slots of static-frame objects (inside=True),
+    tuples / lists / dicts / sets, generators and iterators (consumed, bounded), masked arrays; the cells of an object array are
+    cell VALUES (inside=False again)."""
     if out is None:
         out, seen, budget = [], set(), [4000]
     if depth > 8 or budget[0] <= 0 or id(obj) in seen:
@@ -535,24 +634,24 @@ def walk_arrays(obj, path='r', out=None, seen=None, depth=0, budget=None):
     budget[0] -= 1
     if isinstance(obj, np.ndarray):
         seen.add(id(obj))
-        out.append((path, obj))
+        out.append((path, obj, inside))
         if isinstance(obj, np.ma.MaskedArray):
-            out.append((path + '.mask', np.ma.getmaskarray(obj)))
+            out.append((path + '.mask', np.ma.getmaskarray(obj), inside))
         if obj.dtype.kind == 'O' and obj.size <= 64:
             for i, x in enumerate(obj.reshape(-1)):
                 if isinstance(x, np.ndarray) or _is_sf(x):
-                    walk_arrays(x, f'{path}<{i}>', out, seen, depth + 1, budget)
+                    walk_arrays(x, f'{path}<{i}>', out, seen, depth + 1, budget, False)
         return out
     if obj is None or isinstance(obj, (str, bytes, int, float, complex, bool, np.generic, type)):
         return out
     seen.add(id(obj))
     if isinstance(obj, (list, tuple, set, frozenset)):
         for i, x in enumerate(itertools.islice(obj, 64)):
-            walk_arrays(x, f'{path}[{i}]', out, seen, depth + 1, budget)
+            walk_arrays(x, f'{path}[{i}]', out, seen, depth + 1, budget, inside)
     elif isinstance(obj, dict):
         for i, (k, v) in enumerate(itertools.islice(obj.items(), 64)):
-            walk_arrays(k, f'{path}.key{i}', out, seen, depth + 1, budget)
-            walk_arrays(v, f'{path}[{k!r}]', out, seen, depth + 1, budget)
+            walk_arrays(k, f'{path}.key{i}', out, seen, depth + 1, budget, inside)
+            walk_arrays(v, f'{path}[{k!r}]', out, seen, depth + 1, budget, inside)
     elif _is_sf(obj):
         if is_node(obj):
             return out
@@ -561,15 +660,15 @@ def walk_arrays(obj, path='r', out=None, seen=None, depth=0, budget=None):
                 v = getattr(obj, n)
             except AttributeError:
                 continue
-            walk_arrays(v, f'{path}.{n}', out, seen, depth + 1, budget)
+            walk_arrays(v, f'{path}.{n}', out, seen, depth + 1, budget, True)
         d = getattr(obj, '__dict__', None)
         if d:
             for n, v in list(d.items())[:32]:
-                walk_arrays(v, f'{path}.{n}', out, seen, depth + 1, budget)
+                walk_arrays(v, f'{path}.{n}', out, seen, depth + 1, budget, True)
     elif hasattr(obj, '__next__') or inspect.isgenerator(obj) or type(obj).__name__ in ('dict_keys', 'dict_values', 'dict_items', 'map', 'zip', 'filter'):
         try:
             for i, x in enumerate(itertools.islice(obj, 24)):
-                walk_arrays(x, f'{path}<it{i}>', out, seen, depth + 1, budget)
+                walk_arrays(x, f'{path}<it{i}>', out, seen, depth + 1, budget, inside)
         except Exception:  # noqa: an iterator that raises midway is a failing call
             pass
     return out
@@ -806,6 +905,35 @@ def arg_pool(R, pname, default, path, rng, tmp):
         return np.full(n0, fill)
 
     P = []
+    if member == 'from_pandas' and pname == 'value':
+        import pandas as pd
+        P = [('pandas DataFrame (int, float cols)', lambda: pd.DataFrame({'a': np.array([1, 2, 3]), 'b': np.array([1.5, 2.5, 3.5])})),
+             ('pandas Series', lambda: pd.Series(np.array([1, 2, 3]), index=list('abc'))),
+             ('pandas Index', lambda: pd.Index(np.array([10, 20, 30]))),
+             ('pandas MultiIndex', lambda: pd.MultiIndex.from_product((('a', 'b'), (1, 2)))),
+             ('5', lambda: 5)]
+        first = {'frame': 0, 'series': 1, 'index': 2, 'ih': 3}.get(R.kind, 0)
+        return [P[first]] + [x for i, x in enumerate(P) if i != first]
+    if member.startswith('from_') and pname == 'fp':
+        def write(name, text):
+            path = os.path.join(tmp, name)
+            with open(path, 'w') as f:
+                f.write(text)
+            return path
+        sep = chr(9) if 'tsv' in member else ','
+        return [('existing delimited file', lambda: write('in' + ('.tsv' if sep != ',' else '.csv'), f'a{sep}b{chr(10)}1{sep}2{chr(10)}3{sep}4{chr(10)}')),
+                ('StringIO', lambda: io.StringIO(f'a{sep}b{chr(10)}1{sep}2{chr(10)}3{sep}4{chr(10)}')), ('missing path', lambda: os.path.join(tmp, 'missing.csv'))]
+    if pname == 'mapping' and member.startswith('from_'):
+        return [("{'a': writeable ndarray, 'b': writeable ndarray}", lambda: {'a': _warr([1, 2, 3]), 'b': _warr([4, 5, 6])}), ("{'a': 1, 'b': 2}", lambda: {'a': 1, 'b': 2}),
+                ("{'a': (1, 2), 'b': (3, 4)}", lambda: {'a': (1, 2), 'b': (3, 4)}), ('5', lambda: 5)]
+    if pname == 'fields':
+        return [('[writeable ndarray, writeable ndarray]', lambda: [_warr([1, 2, 3]), _warr([4, 5, 6])]), ('[(1, 2), (3, 4)]', lambda: [(1, 2), (3, 4)]), ('5', lambda: 5)]
+    if pname == 'labels' and R.kind == 'ih' and member.startswith('from_'):
+        return [("[('a', 1), ('a', 2), ('b', 1)]", lambda: [('a', 1), ('a', 2), ('b', 1)]),
+                ('2D writeable object ndarray', lambda: _warr([['a', 1], ['a', 2], ['b', 1]], dtype=object)),
+                ("['a|1', 'a|2']", lambda: ['a|1', 'a|2']), ('5', lambda: 5)]
+    if pname == 'json_data':
+        return [('json records', lambda: '[{"a": 1, "b": 2}, {"a": 3, "b": 4}]'), ("'x'", lambda: 'x')]
     if pname == 'key':
         tail = 'loc'
         for name, kind in reversed(path):
@@ -906,7 +1034,18 @@ def arg_pool(R, pname, default, path, rng, tmp):
     if pname == 'bloc_key':
         return key_pool(R, 'bloc', rng)
     if pname in ('delimiter',):
-        return [("','", lambda: ',')]
+        return [("'|'" if R.kind == 'ih' else "','", lambda: '|' if R.kind == 'ih' else ',')]
+    if pname == 'show':
+        return [('False', lambda: False)]
+    if pname in ('pattern', 'sub', 'old', 'new', 'prefix', 'suffix', 'chars', 'sep', 'fillchar', 'format', 'encoding', 'errors'):
+        P = [("'a'", lambda: 'a'), ("''", lambda: ''), ('5', lambda: 5)]
+        if pname == 'format':
+            P.insert(0, ("'%Y'", lambda: '%Y'))
+        if pname in ('encoding', 'errors'):
+            return [(repr(default), lambda: default)] if default is not inspect.Parameter.empty else [("'utf-8'", lambda: 'utf-8')]
+        return P
+    if pname in ('width',):
+        return [('3', lambda: 3)]
     if pname in ('url', 'query', 'connection'):
         return [("'x'", lambda: 'x')]
     # generic: from the default
@@ -927,7 +1066,13 @@ SKIP_MEMBERS = {
     '__getattribute__', '__setattr__', '__delattr__', '__doc__', '__module__', '__slots__', '__hash__' if False else '__weakref__',
     'to_clipboard', 'from_clipboard', 'interface',
 }
+NODE_SKIP = {'__orig_bases__', '__parameters__', '__class_getitem__', '__dict__', '__annotations__', '__abstractmethods__', '__repr__', '__str__',
+             '__eq__', '__ne__', '__hash__'} - {'__eq__', '__ne__'}
 SKIP_SUFFIX = ('_pool',)     # process pools: covered by C18
+
+
+VARARGS = {'levels': [("('a', 'b')", lambda: ('a', 'b')), ('writeable ndarray [1, 2]', lambda: _warr([1, 2]))],
+           'args': [], 'others': []}
 
 
 def call_plans(R, fn, path, rng, tmp, budget):
@@ -936,10 +1081,12 @@ def call_plans(R, fn, path, rng, tmp, budget):
         sig = inspect.signature(fn)
     except (TypeError, ValueError):
         return [((), {}, '()')]
-    req, opt, var = [], [], False
+    req, opt, var = [], [], None
     for p in sig.parameters.values():
-        if p.kind in (p.VAR_POSITIONAL, p.VAR_KEYWORD):
-            var = True
+        if p.kind == p.VAR_POSITIONAL:
+            var = p
+            continue
+        if p.kind == p.VAR_KEYWORD:
             continue
         (req if p.default is p.empty else opt).append(p)
     pools = {p.name: arg_pool(R, p.name, p.default, path, rng, tmp) for p in req + opt}
@@ -953,6 +1100,10 @@ def call_plans(R, fn, path, rng, tmp, budget):
                 kwargs[p.name] = th
                 txt.append(f'{p.name}={t}')
             else:
+                args.append(th)
+                txt.append(t)
+        if var is not None:
+            for t, th in VARARGS.get(var.name, ()):
                 args.append(th)
                 txt.append(t)
         for p in opt:
@@ -996,38 +1147,70 @@ def render(path):
     return out
 
 
-class Explorer:
-    '''Applies every public member (recursively through selector / assignment / iterator / accessor nodes) of one receiver, with
-    argument pools, in a random order; after every call compares a deep snapshot of every live container of the family and walks the
-    result for writeable arrays and for arrays aliasing caller-held writeable arrays.'''
+class _time_limit:
+    '''Abort a call that does not return (e.g. a grow-only receiver extended with itself) -- counted as a failing call.'''
 
-    def __init__(self, R, rng, tmp, budget, members=None, with_constructors=True):
+    def __init__(self, seconds):
+        self.seconds = seconds
+
+    def _raise(self, *a):
+        raise TimeoutError('call did not return')
+
+    def __enter__(self):
+        import signal
+        import threading
+        self.active = threading.current_thread() is threading.main_thread()
+        if self.active:
+            self.old = signal.signal(signal.SIGALRM, self._raise)
+            signal.setitimer(signal.ITIMER_REAL, self.seconds)
+
+    def __exit__(self, *a):
+        import signal
+        if self.active:
+            signal.setitimer(signal.ITIMER_REAL, 0)
+            signal.signal(signal.SIGALRM, self.old)
+        return False
+
+
+CHECKS = ('state-unchanged', 'container-arrays-readonly', 'bare-array-readonly', 'no-caller-alias')
+
+
+class Explorer:
+    """Applies every public member (recursively through selector / assignment / iterator / accessor nodes) of one receiver, with
+    argument pools, in a random order; after every call (1) compares a deep snapshot of every live container of the family,
+    (2) walks the result: every array held by a returned container must be read-only and must not overlap a writeable array the
+    caller holds, (3) every other array handed out must be read-only."""
+
+    def __init__(self, R, rng, tmp, budget, with_constructors=True):
         from static_frame.core.interface import InterfaceSummary
         self.R, self.rng, self.tmp, self.budget = R, rng, tmp, budget
         self.stats = {}          # path string -> {'calls':, 'ok':, 'errors': {cls: n}}
-        self.bad = []            # (path string, call text, reason, finding class or None)
+        self.bad = {}            # (path string, check) -> [(call text, reason)]
         self.family = [('receiver', R.obj)]
         self.with_constructors = with_constructors
         obj = R.obj
-        # a bystander sharing memory with the receiver, taken before anything is called
+        # bystanders sharing memory with the receiver, taken before anything is called
         try:
             if R.kind == 'frame':
                 self.family.append(('receiver.iloc[:, ::-1]', obj.iloc[:, ::-1]))
                 self.family.append(('receiver.T', obj.transpose()))
             elif R.kind == 'series':
                 self.family.append(('receiver.iloc[::-1]', obj.iloc[::-1]))
-            elif R.kind in ('index', 'ih'):
-                self.family.append(('receiver.copy()', obj.copy()))
-            elif R.kind == 'tb':
+            else:
                 self.family.append(('receiver.copy()', obj.copy()))
         except Exception:  # noqa
             pass
-        names = [n for n, _, _ in InterfaceSummary.name_obj_iter(type(obj)) if n not in SKIP_MEMBERS and not n.endswith(SKIP_SUFFIX)]
-        if members is not None:
-            names = [n for n in names if n in members]
-        self.names = names
-        self.src_digest = [digest(a) for a in R.sources]
+        self.names = [n for n, _, _ in InterfaceSummary.name_obj_iter(type(obj)) if n not in SKIP_MEMBERS and not n.endswith(SKIP_SUFFIX)]
+        try:
+            objectish = R.kind == 'ih' or any(a.dtype.kind == 'O' for _, a, _ in walk_arrays(obj))
+        except Exception:  # noqa
+            objectish = True
+        if objectish:
+            # NumPy 2.5 segfaults in object-dtype matmul when an element operation raises (np.full(4, 2) @ object array of str and date):
+            # a crash of NumPy, not an observation about static-frame; these two members are skipped on object-valued receivers
+            self.names = [n for n in self.names if n not in ('__matmul__', '__rmatmul__')]
         self.base = self.snap()
+        self.family_arrays = [a for _, c in self.family for _, a, _ in walk_arrays(c)]
 
     def snap(self):
         out = []
@@ -1046,11 +1229,15 @@ class Explorer:
         else:
             st['errors'][err] = st['errors'].get(err, 0) + 1
 
-    def perform(self, path, text, thunk, caller_arrays=(), mutator=False):
-        '''Run one call; returns (ok, result).'''
+    def flag(self, ps, check, text, reason):
+        self.bad.setdefault((ps, check), []).append((text, reason))
+
+    def perform(self, path, text, thunk, held=(), mutator=False):
+        """Run one call; `held`: [(text, array)] every ndarray the caller passed in. Returns (ok, result)."""
         ps = render(path)
         try:
-            result = thunk()
+            with _time_limit(10):
+                result = thunk()
             ok, err = True, None
         except Exception as e:  # noqa: failing calls are part of the quantifier
             result, ok, err = None, False, type(e).__name__
@@ -1059,34 +1246,35 @@ class Explorer:
         if ok:
             try:
                 arrays = walk_arrays(result)
-            except Exception as e:  # noqa
+            except Exception:  # noqa
                 arrays = []
         after = self.snap()
         if after != self.base:
-            if mutator:
-                self.base = after
-            else:
+            if not mutator:
                 which = [self.family[i][0] for i in range(len(after)) if after[i] != self.base[i]]
-                self.bad.append((ps, text, f'observable state of {which} changed ({"call raised " + err if not ok else "call returned"})', None))
-                self.base = after
-        for apath, a in arrays:
+                self.flag(ps, 'state-unchanged', text, f'observable state of {which} changed ({"call raised " + err if not ok else "call returned"})')
+            self.base = after
+            self.family_arrays = [a for _, c in self.family for _, a, _ in walk_arrays(c)]
+        held_ids = {id(c) for _, c in held}
+        seen_kind = set()
+        for apath, a, inside in arrays:
+            mine = id(a) in held_ids
+            if mine and not inside:
+                continue            # the caller's own array object handed back (a key, a fill value, a cell value)
             if a.flags.writeable:
-                alias = any(np.may_share_memory(a, b) and np.shares_memory(a, b) for _, b in self._family_arrays())
-                self.bad.append((ps, text, f'result array at {apath} (dtype {a.dtype}, shape {a.shape}) is writeable' + (' and shares memory with a live container' if alias else ''), None))
-                break
-        if ok and caller_arrays:
-            for apath, a in arrays:
-                for ctext, c in caller_arrays:
+                alias = any(np.may_share_memory(a, b) and np.shares_memory(a, b) for b in self.family_arrays)
+                check = 'container-arrays-readonly' if (inside or alias) else 'bare-array-readonly'
+                if check not in seen_kind:
+                    seen_kind.add(check)
+                    self.flag(ps, check, text, f'array at {apath} (dtype {a.dtype}, shape {a.shape}) is writeable'
+                              + (' and is held by a returned container' if inside else '') + (' and shares memory with a live container' if alias else ''))
+            if inside and 'alias' not in seen_kind:
+                for ctext, c in held:
                     if c.flags.writeable and np.may_share_memory(a, c) and np.shares_memory(a, c):
-                        self.bad.append((ps, text, f'result array at {apath} shares memory with the writeable caller array {ctext}', None))
+                        seen_kind.add('alias')
+                        self.flag(ps, 'no-caller-alias', text, f'array at {apath} of the returned container shares memory with the writeable caller array {ctext}: later writes by the caller show through')
                         break
         return ok, result
-
-    def _family_arrays(self):
-        out = []
-        for _, c in self.family:
-            out.extend(walk_arrays(c))
-        return out
 
     def call(self, path, fn, node_depth):
         name = path[-1][0]
@@ -1097,7 +1285,9 @@ class Explorer:
                 kwargs = {k: th() for k, th in kwargs_th.items()}
             except Exception:  # noqa: the pool could not build the argument for this receiver
                 continue
-            held = [(p, a) for p, a in walk_arrays([args, kwargs], 'arg') if a.flags.writeable]
+            if mut and any(a is self.R.obj or (isinstance(a, list) and any(x is self.R.obj for x in a)) for a in list(args) + list(kwargs.values())):
+                continue    # a grow-only receiver extended with itself need not terminate (TypeBlocks.extend iterates the list it appends to)
+            held = [(p, a) for p, a, _ in walk_arrays([args, kwargs], 'arg')]
             ok, result = self.perform(path + [('()', 'call')], f'{render(path)}{txt}', lambda: fn(*args, **kwargs), held, mutator=mut)
             if ok:
                 self.after_result(path + [('()', 'call')], result, node_depth)
@@ -1110,7 +1300,7 @@ class Explorer:
                 key = th()
             except Exception:  # noqa
                 continue
-            held = [(p, a) for p, a in walk_arrays(key, 'key') if a.flags.writeable]
+            held = [(p, a) for p, a, _ in walk_arrays(key, 'key')]
             ok, result = self.perform(path + [('[]', 'getitem')], f'{render(path)}[{txt}]', lambda: node[key], held)
             if ok:
                 self.after_result(path + [('[]', 'getitem')], result, node_depth)
@@ -1120,39 +1310,43 @@ class Explorer:
             self.explore_node(path, result, node_depth + 1)
 
     def explore_node(self, path, node, node_depth):
-        names = [n for n in dir(type(node)) if (not n.startswith('_') or n in ('__getitem__', '__call__', '__iter__')) and not n.endswith(SKIP_SUFFIX)]
+        own = set()
+        objectish = self.R.kind == 'ih' or any(a.dtype.kind == 'O' for a in self.family_arrays)
+        for k in type(node).__mro__:
+            if k is not object:
+                own.update(k.__dict__)
+        names = [n for n in sorted(own) if (not n.startswith('_') or (n.startswith('__') and n.endswith('__') and n not in SKIP_MEMBERS and n not in NODE_SKIP))
+                 and not n.endswith(SKIP_SUFFIX) and not (objectish and n in ('__matmul__', '__rmatmul__'))]
         self.rng.shuffle(names)
         for n in names:
-            self.member(path, node, n, node_depth)
+            self.member(path, node, n, node_depth, on_node=True)
 
-    def member(self, path, owner, n, node_depth):
+    def member(self, path, owner, n, node_depth, on_node=False):
         p = path + [(n, 'attr')]
         if n == '__getitem__':
             return self.getitem(path, owner, node_depth)
         if n == '__call__':
-            return self.call(path[:-1] + [(path[-1][0], path[-1][1])] if False else path, owner, node_depth)
+            return self.call(path, owner, node_depth)
+        cls_attr = inspect.getattr_static(type(owner), n, None)
         try:
-            cls_attr = inspect.getattr_static(type(owner), n, None)
-        except Exception:  # noqa
-            cls_attr = None
-        if isinstance(cls_attr, property) or not callable(getattr(type(owner), n, None)) or is_node(getattr(type(owner), n, None)):
-            ok, val = self.perform(p, render(p), lambda: getattr(owner, n))
-            if ok and is_node(val) and node_depth < 3:
+            with _time_limit(10):
+                val = getattr(owner, n)
+        except Exception as e:  # noqa: a property that raises
+            self.stat(render(p), False, type(e).__name__)
+            return
+        if is_node(val):
+            self.perform(p, render(p), lambda: getattr(owner, n))
+            if node_depth < 3:
                 self.explore_node(p, val, node_depth + 1)
-            elif ok and callable(val) and not isinstance(val, type) and not _is_container(val):
-                self.call(p, val, node_depth)
             return
-        try:
-            fn = getattr(owner, n)
-        except Exception:  # noqa
-            return
-        if is_node(fn):
-            ok, val = self.perform(p, render(p), lambda: getattr(owner, n))
-            return self.explore_node(p, fn, node_depth + 1)
-        is_ctor = isinstance(cls_attr, (classmethod, staticmethod))
-        if is_ctor and not self.with_constructors:
-            return
-        self.call(p, fn, node_depth)
+        if callable(val) and not isinstance(val, type) and not _is_container(val):
+            is_ctor = isinstance(cls_attr, (classmethod, staticmethod))
+            if is_ctor and not self.with_constructors:
+                return
+            return self.call(p, val, node_depth)
+        if on_node:
+            return      # plain data attributes of a transient node (key, container) are not interface members
+        self.perform(p, render(p), lambda: getattr(owner, n))
 
     def run(self):
         names = list(self.names)
@@ -1164,18 +1358,21 @@ class Explorer:
             if a.flags.writeable and a.size:
                 flat = a.reshape(-1)
                 try:
-                    flat[0] = flat[-1] if a.dtype.kind != 'b' else (not flat[0])
-                    if a.dtype.kind in 'iufc':
+                    if a.dtype.kind == 'b':
+                        flat[0] = not flat[0]
+                    elif a.dtype.kind in 'iuf':
                         flat[0] = flat[0] + 1
+                    else:
+                        flat[0] = flat[-1]
+                        if a.size > 1 and flat[0] == flat[1]:
+                            continue
                 except Exception:  # noqa
                     continue
+                self.stat('<caller writes source array>', True)
                 after = self.snap()
                 if after != self.base:
-                    self.bad.append(('<caller write>', f'source array {i} of the receiver written after construction', 'the write shows through the container', None))
+                    self.flag('<caller writes source array>', 'state-unchanged', f'source array {i} written after construction', 'the write shows through the container')
                     self.base = after
-            elif not a.flags.writeable:
-                for apath, b in self._family_arrays():
-                    pass
 
 
 def _is_container(v):
@@ -1192,41 +1389,136 @@ def interface_records(cls):
     return out
 
 
+def roundtrip_cases(ctx, name, text, R):
+    """pickle and deepcopy round trips of one zoo container: content preserved, every array read-only (one case per array slot name)."""
+    for how, fn in (('pickle', lambda o: pickle.loads(pickle.dumps(o))), ('deepcopy', copy.deepcopy)):
+        before = observe_container(R.obj)
+        try:
+            new = fn(R.obj)
+        except Exception as e:  # noqa
+            yield Case(f'roundtrip:{how}', {'receiver': text, 'call': how, 'raised': type(e).__name__}, tags={'check': f'{how}-content', 'zoo': name},
+                       py_fail=None, nontrivial=False, key=f'{name}|{how}|raise')
+            continue
+        same = observe_container(new) == before and observe_container(R.obj) == before
+        yield Case(f'roundtrip:{how}', {'receiver': text, 'call': f'{how} round trip', 'content_preserved': same},
+                   py_fail=None if same else f'{text} ; {how} round trip does not preserve the observable content',
+                   tags={'check': f'{how}-content', 'zoo': name, 'cls': R.cls.__name__}, key=f'{name}|{how}|content')
+        by_slot = {}
+        for apath, a, inside in walk_arrays(new):
+            slot = apath.rsplit('.', 1)[-1].split('[')[0].split('<')[0]
+            by_slot.setdefault(slot, []).append((apath, a))
+        for slot, items in sorted(by_slot.items()):
+            w = [(apath, a) for apath, a in items if a.flags.writeable]
+            shared = [(apath, a) for apath, a in items if any(np.may_share_memory(a, b) and np.shares_memory(a, b) for _, b, _ in walk_arrays(R.obj)) and a.size
+                      and not np.shares_memory(a, _positions_global())]
+            why = None
+            if w:
+                why = f'{text} ; after the {how} round trip the array at {w[0][0]} is writeable'
+            elif shared and how == 'pickle':
+                why = f'{text} ; after the {how} round trip the array at {shared[0][0]} shares memory with the original'
+            ctx.count(f'roundtrip:{how}:{slot}')
+            yield Case(f'roundtrip:{how}', {'receiver': text, 'call': f'{how} round trip', 'slot': slot, 'arrays': len(items), 'writeable': [p for p, _ in w]},
+                       py_fail=why, tags={'check': f'{how}-readonly', 'slot': slot, 'zoo': name, 'cls': R.cls.__name__}, key=f'{name}|{how}|{slot}')
+
+
+def assignment_cases(ctx, name, text, R):
+    """Mutation syntax on a static container: item / attribute assignment and deletion must raise and change nothing."""
+    from static_frame.core.interface import InterfaceSummary
+    if not R.static:
+        return
+    obj = R.obj
+    base = observe_container(obj)
+    attempts = []
+    k0 = R.L0[0] if R.L0 else 0
+
+    def setitem():
+        obj[k0] = 0
+
+    def delitem():
+        del obj[k0]
+    attempts += [('receiver[k] = 0', setitem, '__setitem__'), ('del receiver[k]', delitem, '__delitem__')]
+    for sel in ('loc', 'iloc'):
+        if hasattr(obj, sel):
+            def f(sel=sel):
+                getattr(obj, sel)[0 if sel == 'iloc' else k0] = 0
+            attempts.append((f'receiver.{sel}[k] = 0', f, f'{sel}.__setitem__'))
+    if hasattr(obj, 'values') and getattr(obj.values, 'size', 0):
+        def wv():
+            obj.values.reshape(-1)[0] = obj.values.reshape(-1)[-1]
+            obj.values[...] = obj.values.reshape(-1)[0]
+        attempts.append(('receiver.values[...] = x', wv, 'values.__setitem__'))
+    for n, _, cls_attr in InterfaceSummary.name_obj_iter(type(obj)):
+        if n.startswith('__') or n in ('interface',):
+            continue
+        try:
+            cur = getattr(obj, n)
+        except Exception:  # noqa
+            continue
+        if callable(cur) and not isinstance(cur, np.ndarray) and not is_node(cur):
+            continue
+        new_val = np.zeros(np.shape(cur), dtype=getattr(cur, 'dtype', float)) if isinstance(cur, np.ndarray) else 'x'
+
+        def sa(n=n, new_val=new_val):
+            setattr(obj, n, new_val)
+        attempts.append((f'receiver.{n} = <new value>', sa, n))
+    for txt, fn, member in attempts:
+        try:
+            fn()
+            raised = None
+        except Exception as e:  # noqa
+            raised = type(e).__name__
+        now = observe_container(obj)
+        why = None
+        if now != base:
+            why = f'{text} ; {txt} changed the container' + ('' if raised else ' (and did not raise)')
+            base = now
+        elif raised is None:
+            why = None      # accepted silently but nothing observable changed (e.g. rebinding a class-level constant on the instance is impossible with slots)
+        ctx.count('assignment:' + ('raised' if raised else 'accepted'))
+        yield Case('api:assignment-syntax', {'receiver': text, 'statement': txt, 'raised': raised, 'changed': why is not None},
+                   py_fail=why, tags={'check': 'assignment-syntax', 'member': member, 'cls': R.cls.__name__, 'zoo': name}, key=f'{name}|assign|{member}')
+
+
+def _positions_global():
+    from static_frame.core.util import PositionsAllocator
+    return PositionsAllocator._array
+
+
 def enumeration_cases(ctx):
     rng = ctx.rng
     tmp = tempfile.mkdtemp(prefix='c01_')
-    budget = 2 if ctx.tier == 'quick' else 6
+    budget = 3 if ctx.tier == 'quick' else 8
+    import warnings
     try:
         seen_cls = set()
         coverage = {}
-        for name, text, factory in zoo(ctx.tier):
-            obj, sources = factory()
-            R = Recv(name, text, obj, sources)
-            first = R.cls not in seen_cls
-            seen_cls.add(R.cls)
-            ex = Explorer(R, rng, tmp, budget, with_constructors=first)
-            ex.run()
-            cov = coverage.setdefault(R.cls, {})
-            for ps, st in ex.stats.items():
-                c = cov.setdefault(ps, [0, 0])
-                c[0] += st['calls']
-                c[1] += st['ok']
-            ctx.count(f'zoo:{R.kind}')
-            by_path = {}
-            for ps, calltxt, reason, fclass in ex.bad:
-                by_path.setdefault(ps, []).append((calltxt, reason, fclass))
-            for ps, st in sorted(ex.stats.items()):
-                bad = by_path.get(ps)
-                ctx.count('calls', )
-                yield Case(f'api:{R.kind}',
-                           {'receiver': text, 'member': ps, 'calls': st['calls'], 'returned': st['ok'], 'raised': st['errors'],
-                            'violations': [{'call': c, 'reason': r} for c, r, _ in (bad or [])[:3]]},
-                           py_fail=None if not bad else f'{text} ; receiver.{bad[0][0]} : {bad[0][1]}',
-                           tags={'cls': R.cls.__name__, 'member': ps, 'zoo': name}, nontrivial=st['ok'] > 0, key=f'{name}|{ps}')
-            for ps, items in by_path.items():
-                if ps not in ex.stats:
-                    yield Case(f'api:{R.kind}', {'receiver': text, 'member': ps, 'violations': [{'call': c, 'reason': r} for c, r, _ in items[:3]]},
-                               py_fail=f'{text} ; {items[0][0]} : {items[0][1]}', tags={'cls': R.cls.__name__, 'member': ps, 'zoo': name}, key=f'{name}|{ps}|x')
+        with warnings.catch_warnings():
+            warnings.simplefilter('ignore')
+            for name, text, factory in zoo(ctx.tier):
+                obj, sources = factory()
+                R = Recv(name, text, obj, sources)
+                yield from roundtrip_cases(ctx, name, text, R)
+                obj2, _ = factory()
+                yield from assignment_cases(ctx, name, text, Recv(name, text, obj2, []))
+                first = R.cls not in seen_cls
+                seen_cls.add(R.cls)
+                ex = Explorer(R, rng, tmp, budget, with_constructors=first)
+                ex.run()
+                cov = coverage.setdefault(R.cls, {})
+                for ps, st in ex.stats.items():
+                    c = cov.setdefault(ps, [0, 0])
+                    c[0] += st['calls']
+                    c[1] += st['ok']
+                ctx.count(f'zoo:{R.kind}')
+                for ps, st in sorted(ex.stats.items()):
+                    ctx.count('calls:returned' if st['ok'] else 'calls:all-raised')
+                    for check in CHECKS:
+                        bad = ex.bad.get((ps, check))
+                        yield Case(f'api:{R.kind}',
+                                   {'receiver': text, 'member': ps, 'check': check, 'calls': st['calls'], 'returned': st['ok'], 'raised': st['errors'],
+                                    'violations': [{'call': 'receiver.' + c, 'reason': r} for c, r in (bad or [])[:3]]},
+                                   py_fail=None if not bad else f'{text} ; receiver.{bad[0][0]} : {bad[0][1]}',
+                                   tags={'cls': R.cls.__name__, 'member': ps, 'check': check, 'zoo': name}, nontrivial=st['ok'] > 0, key=f'{name}|{ps}|{check}')
         # coverage of the library's own interface listing
         for cls, cov in coverage.items():
             recs = interface_records(cls)
@@ -1235,7 +1527,7 @@ def enumeration_cases(ctx):
             missing = sorted(recs - hit)
             ctx.count(f'interface:{cls.__name__}:records={len(recs)}:exercised={len(hit)}:returned={len(okhit)}')
             yield Case('coverage:interface', {'class': cls.__name__, 'records': len(recs), 'exercised': len(hit), 'returned_at_least_once': len(okhit),
-                                               'not_exercised': missing[:60]},
+                                               'not_exercised': missing[:80], 'never_returned': sorted(hit - okhit)[:80]},
                        tags={'cls': cls.__name__}, nontrivial=True, key=f'coverage|{cls.__name__}')
     finally:
         shutil.rmtree(tmp, ignore_errors=True)
@@ -1244,3 +1536,144 @@ def enumeration_cases(ctx):
 def cases(ctx):
     yield from heap_cases(ctx)
     yield from enumeration_cases(ctx)
+
+
+# =============================================================================== regenerated from the source on every run
+ANCHOR_FILES = ['util.py', 'type_blocks.py', 'series.py', 'frame.py', 'index.py', 'index_hierarchy.py', 'index_level.py', 'container_util.py',
+                'array_go.py', 'index_base.py', 'index_datetime.py', 'node_str.py', 'node_dt.py', 'index_auto.py', 'container.py']
+# classes that own ndarray slots, the slot names, and where __slots__ is spelled (checked: fail closed when the layout changes)
+ARRAY_SLOTS = {
+    ('index.py', 'Index'): ('_labels', '_positions'),
+    ('series.py', 'Series'): ('values',),
+    ('type_blocks.py', 'TypeBlocks'): ('_blocks',),
+    ('array_go.py', 'ArrayGO'): ('_array',),
+}
+
+
+def _parse(repo, fname):
+    import ast
+    path = os.path.join(repo, 'static_frame', 'core', fname)
+    with open(path) as f:
+        return ast.parse(f.read(), filename=path)
+
+
+def _is_flag_assign(node, value):
+    '''`<expr>.flags.writeable = <value>`; returns the <expr> node or None.'''
+    import ast
+    if not isinstance(node, ast.Assign) or len(node.targets) != 1:
+        return None
+    t = node.targets[0]
+    if (isinstance(t, ast.Attribute) and t.attr == 'writeable' and isinstance(t.value, ast.Attribute) and t.value.attr == 'flags'
+            and isinstance(node.value, ast.Constant) and node.value.value is value):
+        return t.value.value
+    return None
+
+
+def setstate_table(repo):
+    '''{class name: [(slot, refrozen by __setstate__)]} read from the AST of the classes that own ndarray slots.'''
+    import ast
+    out = {}
+    known = {c for (_, c) in ARRAY_SLOTS}
+    for fname in ANCHOR_FILES:
+        tree = _parse(repo, fname)
+        for cls in [n for n in tree.body if isinstance(n, ast.ClassDef)]:
+            fns = {n.name: n for n in cls.body if isinstance(n, ast.FunctionDef)}
+            if '__setstate__' in fns and cls.name not in known:
+                raise ValueError(f'{fname}:{cls.name} defines __setstate__ but is not a known array-owning class: extend ARRAY_SLOTS')
+            if (fname, cls.name) not in ARRAY_SLOTS:
+                continue
+            slots = ARRAY_SLOTS[(fname, cls.name)]
+            # the slot names must still be declared
+            src = ast.dump(tree)
+            for sname in slots:
+                if f"value='{sname}'" not in src:
+                    raise ValueError(f'{fname}: slot {sname} of {cls.name} is no longer declared')
+            frozen = set()
+            if '__setstate__' in fns:
+                for node in ast.walk(fns['__setstate__']):
+                    tgt = _is_flag_assign(node, False)
+                    if tgt is None:
+                        continue
+                    if isinstance(tgt, ast.Attribute) and isinstance(tgt.value, ast.Name) and tgt.value.id == 'self':
+                        frozen.add(tgt.attr)
+                    elif isinstance(tgt, ast.Name):
+                        # for b in self.X: b.flags.writeable = False
+                        for loop in ast.walk(fns['__setstate__']):
+                            if (isinstance(loop, ast.For) and isinstance(loop.target, ast.Name) and loop.target.id == tgt.id
+                                    and isinstance(loop.iter, ast.Attribute) and isinstance(loop.iter.value, ast.Name) and loop.iter.value.id == 'self'):
+                                frozen.add(loop.iter.attr)
+                    else:
+                        raise ValueError(f'{fname}:{cls.name}.__setstate__: unrecognised freeze statement')
+            out[cls.name] = [(sname, sname in frozen) for sname in slots]
+    missing = known - set(out)
+    if missing:
+        raise ValueError(f'array-owning classes not found: {sorted(missing)}')
+    return out
+
+
+def freeze_census(repo):
+    """[(qualified function, protect sites, thaw sites)]: protect = `x.flags.writeable = False` statements + immutable_filter calls,
+    counted in the innermost enclosing function (or class / module body)."""
+    import ast
+    rows = {}
+
+    def own_nodes(scope):
+        stack = list(ast.iter_child_nodes(scope))
+        while stack:
+            n = stack.pop()
+            if isinstance(n, (ast.FunctionDef, ast.AsyncFunctionDef, ast.ClassDef)):
+                continue
+            yield n
+            stack.extend(ast.iter_child_nodes(n))
+
+    def visit(scope, qual):
+        key = '.'.join(qual)
+        for n in own_nodes(scope):
+            if _is_flag_assign(n, False) is not None:
+                rows.setdefault(key, [0, 0])[0] += 1
+            elif _is_flag_assign(n, True) is not None:
+                rows.setdefault(key, [0, 0])[1] += 1
+            elif isinstance(n, ast.Call) and isinstance(n.func, ast.Name) and n.func.id == 'immutable_filter':
+                rows.setdefault(key, [0, 0])[0] += 1
+        for n in ast.walk(scope):
+            if n is not scope and isinstance(n, (ast.FunctionDef, ast.AsyncFunctionDef, ast.ClassDef)) and _parent_scope(scope, n):
+                visit(n, qual + [n.name])
+
+    def _parent_scope(scope, node):
+        # node is a direct child scope of `scope` (not nested in another def/class in between)
+        stack = list(ast.iter_child_nodes(scope))
+        while stack:
+            n = stack.pop()
+            if n is node:
+                return True
+            if isinstance(n, (ast.FunctionDef, ast.AsyncFunctionDef, ast.ClassDef)):
+                continue
+            stack.extend(ast.iter_child_nodes(n))
+        return False
+
+    for fname in ANCHOR_FILES:
+        visit(_parse(repo, fname), [fname[:-3]])
+    return sorted((k, v[0], v[1]) for k, v in rows.items())
+
+
+def generate(repo):
+    tab = setstate_table(repo)
+    cen = freeze_census(repo)
+    b = lit.b
+    lines = ['(* GENERATED on every run by tools/sfv/props/c01.py from the AST of /repo/static_frame/core -- do not edit. *)',
+             'Require Import SF.Prelude.', 'Local Open Scope string_scope.', 'Local Open Scope nat_scope.', '',
+             '(* which ndarray slots __setstate__ re-freezes after unpickling (True) and which it leaves writeable (False) *)',
+             'Definition setstate_refreezes : list (string * list (string * bool)) := ['
+             + '; '.join(f'({lit.s(c)}, [' + '; '.join(f'({lit.s(n)}, {b(f)})' for n, f in slots) + '])' for c, slots in sorted(tab.items())) + '].',
+             f'Definition pickle_flags_index : list bool := [{"; ".join(b(f) for _, f in tab["Index"])}].      (* _labels, _positions *)',
+             f'Definition pickle_flag_series_values : bool := {b(tab["Series"][0][1])}.',
+             f'Definition pickle_flag_block : bool := {b(tab["TypeBlocks"][0][1])}.',
+             f'Definition pickle_flag_arraygo : bool := {b(tab["ArrayGO"][0][1])}.',
+             'Definition pickle_flags_series : list bool := pickle_flag_series_values :: pickle_flags_index.',
+             'Definition pickle_flags_frame1 : list bool := pickle_flag_block :: (pickle_flags_index ++ pickle_flags_index)%list.',
+             '',
+             '(* census of the freeze protocol: (function, protect sites = `flags.writeable = False` statements + immutable_filter calls, thaw sites) *)',
+             'Definition freeze_census : list (string * (nat * nat)) := [']
+    lines.append(';\n'.join(f'  ({lit.s(k)}, ({p}, {t}))' for k, p, t in cen))
+    lines.append('].')
+    return {'Gen/Gen_c01.v': '\n'.join(lines) + '\n'}
